@@ -79,6 +79,21 @@ LineCharacters()
     return line;
 }
 
+/// whether the (isolated) mime block has a line made of two or more CRs and
+/// nothing else before its LF; a single CR before LF is an ordinary CRLF
+static bool
+HasCrOnlyLine(const SBuf &mimeBlock)
+{
+    Parser::Tokenizer tok(mimeBlock);
+    while (!tok.atEnd()) {
+        if (tok.skipAll(CharacterSet::CR) > 1 && tok.skipOne(CharacterSet::LF))
+            return true;
+        (void)tok.skipAll(LineCharacters());
+        (void)tok.skipOne(CharacterSet::LF);
+    }
+    return false;
+}
+
 /**
  * Remove invalid lines (if any) from the mime prefix
  *
@@ -179,6 +194,17 @@ Http::One::Parser::grabMimeBlock(const char *which, const size_t limit)
             }
 
             mimeHeaderBlock_ = buf_.consume(mimeHeaderBytes);
+
+            // HttpHeader::parse() rejects CR-only lines to prevent request
+            // smuggling, but it only sees what cleanMimePrefix() and
+            // unfoldMime() leave behind: both can swallow such a line.
+            if (HasCrOnlyLine(mimeHeaderBlock_)) {
+                debugs(33, ErrorLevel(), "CR-only line in " << which);
+                parseStatusCode = Http::scInvalidHeader;
+                parsingStage_ = HTTP_PARSE_DONE;
+                return false;
+            }
+
             cleanMimePrefix();
             if (containsObsFold)
                 unfoldMime();
